@@ -153,9 +153,8 @@ def class_for(comp_name: str) -> str:
     return "SAM" if comp_name.startswith("sam_apx") else "SA"
 
 
-def random_history_step(sim: Sim, h: GameHarness, truthful: bool, allow_break_minimal: bool,
-                        fault_rate: tuple[int, int] = (1, 8)) -> str:
-    """Perform one tape-chosen operation on `h`; returns its kind."""
+def draw_op(sim: Sim, h: GameHarness, truthful: bool, allow_break_minimal: bool) -> tuple:
+    """Draw one operation (kind, args) for the knowledge state of `h` without applying it."""
     kinds: list[tuple[str, int]] = [("compute", 3)]
     unk = [i for i in h.explorable if i not in h.kv]
     kn = h.known_nonminimal()
@@ -174,39 +173,67 @@ def random_history_step(sim: Sim, h: GameHarness, truthful: bool, allow_break_mi
         kinds = [("bulk_reset", 2), ("restore_minimal", 3)]
     kind = sim.pick_weighted(kinds, "op")
     if kind == "compute":
+        return ("compute",)
+    if kind == "reveal":
+        return ("reveal", sim.pick(unk, "reveal-which"))
+    if kind == "unreveal":
+        return ("unreveal", sim.pick(kn, "unreveal-which"))
+    if kind == "unset":
+        return ("unset", sim.pick(kn, "unset-which"))
+    if kind == "set":
+        i = sim.pick(list(range(1, 2 ** h.n)), "set-which")
+        v = float(sim.choose(41, "set-value") - 20)
+        if sim.flip(1, 3, "set-frac"):
+            v += sim.choose(16, "set-frac-v") / 16.0
+        return ("set", i, v)
+    if kind == "bulk_set":
+        ids = sim.subset(unk, "bulk_set-ids", 1, 3) or [unk[0]]
+        return ("bulk_set", ids)
+    if kind == "restore_minimal":
+        return ("bulk_set", [i for i in h.minimal if i not in h.kv])
+    extra = sim.subset(h.explorable, "reset-extra", 1, 3)
+    if allow_break_minimal and sim.flip(1, 4, "reset-break"):
+        ids = sorted(set(sim.subset(h.minimal, "reset-min", 2, 3)) | set(extra)) or [0]
+        return ("bulk_reset", ids)
+    return ("bulk_reset", sorted(set(h.minimal) | set(extra)))
+
+
+def apply_op(h: GameHarness, op: tuple) -> None:
+    kind = op[0]
+    if kind == "compute":
         if h.has_minimal():
-            if sim.flip(*fault_rate, "fault?"):
-                f = sim.pick(["torn", "scribble", "evict"], "fault-kind")
-                if f == "torn":
-                    h.torn_compute()
-                elif f == "scribble":
-                    h.scribble()
-                else:
-                    h.evict()
             h.compute()
     elif kind == "reveal":
-        h.reveal(sim.pick(unk, "reveal-which"))
+        h.reveal(op[1])
     elif kind == "unreveal":
-        h.unreveal(sim.pick(kn, "unreveal-which"))
+        h.unreveal(op[1])
     elif kind == "unset":
-        h.unset(sim.pick(kn, "unset-which"))
+        h.unset(op[1])
     elif kind == "set":
-        i = sim.pick(list(range(1, 2 ** h.n)), "set-which")
-        rng_v = float(sim.choose(41, "set-value") - 20)
-        if sim.flip(1, 3, "set-frac"):
-            rng_v += sim.choose(16, "set-frac-v") / 16.0
-        h.set(i, rng_v)
+        h.set(op[1], op[2])
     elif kind == "bulk_set":
-        ids = sim.subset(unk, "bulk_set-ids", 1, 3) or [unk[0]]
-        h.bulk_set(ids, [float(h.values[i]) for i in ids])
-    elif kind == "restore_minimal":
-        ids = [i for i in h.minimal if i not in h.kv]
-        h.bulk_set(ids, [float(h.values[i]) for i in ids])
+        h.bulk_set(op[1], [float(h.values[i]) for i in op[1]])
     elif kind == "bulk_reset":
-        extra = sim.subset(h.explorable, "reset-extra", 1, 3)
-        if allow_break_minimal and sim.flip(1, 4, "reset-break"):
-            ids = sorted(set(sim.subset(h.minimal, "reset-min", 2, 3)) | set(extra)) or [0]
-            h.bulk_reset(ids)
-        else:
-            h.reset_minimal(extra)
-    return kind
+        h.bulk_reset(op[1])
+
+
+def inject_fault(sim: Sim, h: GameHarness) -> str:
+    f = sim.pick(["torn", "scribble", "evict"], "fault-kind")
+    if f == "torn":
+        h.torn_compute()
+    elif f == "scribble":
+        h.scribble()
+        sim.fault("scribbled_bounds")
+    else:
+        h.evict()
+    return f
+
+
+def random_history_step(sim: Sim, h: GameHarness, truthful: bool, allow_break_minimal: bool,
+                        fault_rate: tuple[int, int] = (1, 8)) -> str:
+    """Perform one tape-chosen operation on `h`; returns its kind."""
+    op = draw_op(sim, h, truthful, allow_break_minimal)
+    if op[0] == "compute" and h.has_minimal() and sim.flip(*fault_rate, "fault?"):
+        inject_fault(sim, h)
+    apply_op(h, op)
+    return op[0]
